@@ -1,7 +1,8 @@
 #!/bin/sh
 # reseed_all.sh — run every filed seeded change against its property's own check (quick tier, seed 0) and print one line each
 cd "$(dirname "$0")/.." || exit 2
-for d in seeded/C*-*; do
+# optional argument: a shell pattern of seed ids (e.g. "C0[1-5]-*") to run a part of the regression
+for d in seeded/${1:-C*-*}; do
   id=$(basename "$d"); p=${id%-*}
   out=$(python3 tools/try_patch.py "$d/patch.diff" "$p" 2>&1 | grep "^$p " | cut -c1-260)
   echo "$id $out"
